@@ -38,6 +38,10 @@ def m_ends(i, p, fr, c, a, d, r):
     return ret(p, fr, d, r, z3.BoolVal(s.endswith(cstr(pat) if isinstance(pat, Str) else chr(pat.as_long()))))
 def m_split(i, p, fr, c, a, d, r): return ret(p, fr, d, r, Opaque('iter', cstr(a[0]).split(cstr(a[1]))))
 def m_splitn(i, p, fr, c, a, d, r): return ret(p, fr, d, r, Opaque('iter', cstr(a[0]).split(chr(a[2].as_long()), a[1].as_long() - 1)))
+def m_splitn_blank(i, p, fr, c, a, d, r):
+    # splitn(n, |c| c == ' ' || c == '\t') on concrete directive text (the closure is read from the source: blank or tab)
+    import re as _re
+    return ret(p, fr, d, r, Opaque('iter', _re.split(r'[ \t]', cstr(a[0]), maxsplit=a[1].as_long() - 1)))
 def m_next(i, p, fr, c, a, d, r):
     it = S(a[0])
     if not isinstance(it, Opaque) or it.tag != 'iter': raise Unsupported('next on %r' % it)
@@ -110,7 +114,7 @@ def m_format_any(i, p, fr, c, a, d, r): return ret(p, fr, d, r, Str(['<formatted
 MODELS = dict(LIB)
 MODELS.update({
     r'impl str>::trim$': m_trim, r'impl str>::trim_start$': m_trim_start, r'impl str>::starts_with::': m_starts, r'impl str>::ends_with::': m_ends,
-    r'impl str>::split::<&str>$': m_split, r'impl str>::splitn::<char>$': m_splitn,
+    r'impl str>::split::<&str>$': m_split, r'impl str>::splitn::<char>$': m_splitn, r'impl str>::splitn::<\{closure@src/cpp\.rs:\d+:\d+: \d+:\d+\}>$': m_splitn_blank,
     r'(Split|SplitN)<.*> as Iterator>::next$': m_next, r'impl str>::is_empty$': m_is_empty, r'String::is_empty$': m_is_empty,
     r'Option::<&str>::(map|and_then)::': m_map, r'Vec::<State>::push$': m_push, r'Vec::<cpp::State>::push$': m_push, r'Vec::<(cpp::)?State>::pop$': m_pop,
     r'Option::<.*>::is_(none|some)$': m_isnone, r'Context::get_macro::': m_get_macro, r'Context::evaluate$': m_evaluate,
@@ -406,6 +410,14 @@ def nestings(tier):
                 src += '#define FM(x) (x + 1)\n#define EMPTY\n#ifdef FM\nchar mk6;\n#endif\n#ifndef FM\nchar mk7;\n#endif\n#ifdef EMPTY\nchar mk8;\n#endif\n#undef FM\n#ifdef FM\nchar mk9;\n#endif\n'
             for defs in (['A', 'B=0', 'ZERO=0'], ['A=0', 'B=1', 'ZERO=0'], ['A=0', 'B=0', 'ZERO=0'], ['A', 'B', 'ZERO=0']):
                 progs.append((src, defs))
+    # string literals and comment-like text inside skipped regions
+    for lit in ('"/*"', '"*/"', '"// x"', '"#endif"', '"#else"', '"a\\"b"', '"/* open'):          # (the character constant '"' is the known defect C09 L01)
+        for opener, closer in (('#if 0', '#endif'), ('#ifdef UNDEF_Q', '#endif'), ('#if 1\n#else', '#endif'), ('#ifndef A', '#endif')):
+            if lit == '"/* open': body = 'const char *dead = "/*";   /* open'
+            else: body = 'const char *dead = %s;' % lit
+            src = 'char mk1;\n%s\n%s\nchar mkdead;\n%s\nchar mk2;\n#ifdef A\nchar mk3;\n#endif\n' % (opener, body, closer)
+            if 'open' in lit: src = src.replace('/* open', '/* open */')
+            progs.append((src, ['A']))
     # more macros than one regex batch holds (100), #undef in every batch position, tests around the batch boundaries
     for N, und in itertools.product((99, 100, 101, 150, 205), ((), (3,), (99,), (100,), (0,), (3, 120), (98, 99, 100, 101))):
         und = [u for u in und if u < N]
